@@ -179,7 +179,7 @@ where
 
 /// Execute the request with hedging strategy
 async fn execute_with_hedging<S, Req>(
-    service: S,
+    mut service: S,
     req: Req,
     config: Arc<HedgeConfig>,
 ) -> Result<S::Response, HedgeError<S::Error>>
@@ -204,12 +204,14 @@ where
     // Channel to collect results from all attempts
     let (tx, mut rx) = mpsc::channel::<(usize, Result<S::Response, S::Error>)>(max_attempts);
 
-    // Spawn primary request
-    let mut service_clone = service.clone();
+    // Spawn primary request on the instance that was driven to readiness;
+    // hedges run on clones, which have to become ready themselves
+    let mut primary = service.clone();
+    std::mem::swap(&mut primary, &mut service);
     let req_clone = req.clone();
     let tx_clone = tx.clone();
     tokio::spawn(async move {
-        let result = service_clone.call(req_clone).await;
+        let result = primary.call(req_clone).await;
         let _ = tx_clone.send((0, result)).await;
     });
 
@@ -299,7 +301,10 @@ where
                             let r = req.clone();
                             let tx_c = tx.clone();
                             tokio::spawn(async move {
-                                let result = svc.call(r).await;
+                                let result = match futures::future::poll_fn(|cx| svc.poll_ready(cx)).await {
+                                    Ok(()) => svc.call(r).await,
+                                    Err(e) => Err(e),
+                                };
                                 let _ = tx_c.send((attempt_num, result)).await;
                             });
 
@@ -365,7 +370,10 @@ where
                     let r = req.clone();
                     let tx_c = tx.clone();
                     tokio::spawn(async move {
-                        let result = svc.call(r).await;
+                        let result = match futures::future::poll_fn(|cx| svc.poll_ready(cx)).await {
+                            Ok(()) => svc.call(r).await,
+                            Err(e) => Err(e),
+                        };
                         let _ = tx_c.send((i, result)).await;
                     });
                 }
